@@ -6,14 +6,17 @@ package jobsync
 // Clause language: see /verif/DESIGN.md §2.2.
 
 // C04 (a copy helper reports an error whenever the destination is not a complete copy): the
-// lifecycle keeps every reported error. The list only grows, holds no nil, and Errors() returns
-// a list at least as long, so a reported failure makes the helper's result non-nil.
+// lifecycle keeps every reported error. The list only grows, Error keeps it free of nil when its
+// callers pass no nil (checked at every call site in fsloop), and Errors() returns the whole list,
+// so a reported failure makes goaterr.ToError of that list, the helper's result, non-nil.
 //@ define NonNilErrs(l ref) bool = forall(k, 0 <= k && k < len(l.errors) ==> l.errors[k] != nil)
 
 // the cancel function of a context belongs to the standard library: it touches no repository state
 //@ functype context.CancelFunc()
 //@   modifies $none
 
+//@ type Lifecycle
+//@   field ctx stable
 //@ func (*Lifecycle).Error [C04]
 //@   layers safety contract
 //@   requires lifecycle != nil
@@ -25,9 +28,18 @@ package jobsync
 //@   ensures forall(k, 0 <= k && k < old(len(lifecycle.errors)) ==> lifecycle.errors[k] == old(lifecycle.errors[k]))
 //@   ensures forall(k, 0 <= k && k < len(e) ==> lifecycle.errors[old(len(lifecycle.errors)) + k] == old(e[k]))
 
+// Errors returns every recorded error, in order, followed by the context's error if there is one
 //@ func (*Lifecycle).Errors [C04]
 //@   layers safety contract
 //@   requires lifecycle != nil && lifecycle.ctx != nil
-//@   requires NonNilErrs(lifecycle)
 //@   ensures len(result) >= old(len(lifecycle.errors))
-//@   ensures forall(k, 0 <= k && k < len(result) ==> result[k] != nil)
+//@   ensures forall(k, 0 <= k && k < old(len(lifecycle.errors)) ==> result[k] == old(lifecycle.errors[k]))
+//@   ensures forall(k, old(len(lifecycle.errors)) <= k && k < len(result) ==> result[k] != nil)
+
+// a new lifecycle has a context and no errors
+//@ extern context.WithDeadline(parent, d) (ctx, cancel)
+//@   modifies $none
+//@   ensures ctx != nil
+//@ func NewLifecycle [C04]
+//@   layers safety contract
+//@   ensures lifecycle != nil && lifecycle.ctx != nil && len(lifecycle.errors) == 0
